@@ -851,6 +851,10 @@ func (p *ProjectRunner) removeProcess(name string) error {
 			running.waitForCompletion()
 		}
 	}
+	// the removed process has no state any more (a later GetProcessState must not find the stale one)
+	p.statesMutex.Lock()
+	delete(p.processStates, name)
+	p.statesMutex.Unlock()
 	return nil
 }
 
